@@ -142,6 +142,41 @@ class CFBackend(JP.ParallelBackendBase):
             self.configure(n_jobs=self._n, parallel=self.parallel)
 
 
+class _Immediate:
+    def __init__(self, func):
+        try:
+            self.value, self.error = func(), None
+        except BaseException as e:  # noqa
+            self.value, self.error = None, e
+
+    def get(self, timeout=None):
+        if self.error is not None:
+            raise self.error
+        return self.value
+
+
+class ImmediateBackend(JP.ParallelBackendBase):
+    """A third-party style backend written against the documented base class (supports_retrieve_callback = False): the
+    batch runs inside submit() and its completion callback fires there too, before submit() returns (what the old
+    ImmediateResult-based backends and futures that are already done do)."""
+    supports_retrieve_callback = False
+    uses_threads = True
+    supports_sharedmem = True
+
+    def configure(self, n_jobs=1, parallel=None, **kw):
+        self.parallel = parallel
+        return max(2, n_jobs)
+
+    def effective_n_jobs(self, n_jobs):
+        return max(2, n_jobs or 2)
+
+    def submit(self, func, callback=None):
+        out = _Immediate(func)
+        if callback is not None:
+            callback(out)
+        return out
+
+
 STATE = {"at": None, "role": None, "hits": (), "delay": 0.03, "count": 0, "main": None, "stalls": 0}
 
 
@@ -159,13 +194,75 @@ def on_line(code, line):
         time.sleep(st["delay"])
 
 
+def run_late_iter(c):
+    """the output generator is closed (or a task fails) while a completion callback is inside the input iterator, which
+    then raises; the backend (concurrent.futures style) cannot join its callback threads.  The next call on the same
+    object must return exactly its own results."""
+    import warnings
+    gate, entered, release = threading.Event(), threading.Event(), threading.Event()
+    STATE.update(at=None, main=threading.get_ident())
+
+    def held(i, fails):
+        # tasks after the first wait until the consumer has its first value: the callback that reaches the slow
+        # end of the input then finds nobody waiting for the dispatch lock
+        if i >= 1:
+            release.wait(5)
+        return task(i, fails)
+
+    def inputs():
+        # slices are n_jobs * batch_size = 2 items long: the caller takes 0, 1; the callback of task 0 takes 2, 3 (no
+        # blocking yet); later callbacks first use the look-ahead queue, then one of them asks for item 4
+        for i in range(4):
+            yield delayed(held)(i, c.get("how") == "taskfail" and i == 1)
+        entered.set()
+        gate.wait(5)
+        raise IterFail(4)
+    p = Parallel(n_jobs=2, backend=CFBackend(), pre_dispatch=2, batch_size=1, return_as=c["return_as"])
+    out = {"first": None, "calls": []}
+    g = p(inputs())
+    try:
+        out["first"] = next(g)
+        release.set()
+        out["entered"] = entered.wait(5)
+        with warnings.catch_warnings():
+            warnings.simplefilter("ignore")
+            if c.get("how") == "taskfail":
+                try:
+                    list(g)
+                except BaseException as e:  # noqa
+                    out["first_raised"] = type(e).__name__
+            else:
+                g.close()
+    except BaseException as e:  # noqa
+        out["first_raised"] = type(e).__name__
+    gate.set()
+    time.sleep(0.4)
+    call = {"values": None, "raised": None}
+    try:
+        call["values"] = list(p(delayed(task)(i, False) for i in range(4)))
+    except BaseException as e:  # noqa
+        call["raised"] = [type(e).__name__, [a if isinstance(a, (int, str)) else repr(a) for a in e.args]]
+    out["calls"].append(call)
+    return out
+
+
 def run_case(c):
+    if c.get("kind") == "late_iter":
+        res = {}
+        t = threading.Thread(target=lambda: res.update(run_late_iter(c)), daemon=True)
+        t.start()
+        t.join(c.get("watchdog", 30))
+        if t.is_alive():
+            res["hang"] = True
+        res.setdefault("calls", [])
+        res.update(stalls=0, visits=0)
+        return res
     res = {"calls": [], "stalls": 0, "visits": 0}
 
     def body():
         STATE.update(at=tuple(c["at"]) if c.get("at") else None, role=c.get("role", "cb"), hits=tuple(c.get("hits", [1, 2, 3])), delay=c.get("delay", 0.03),
                      count=0, stalls=0, main=threading.get_ident())
-        backend = CFBackend() if c.get("backend") == "cf" else "threading"
+        backend = CFBackend() if c.get("backend") == "cf" else (ImmediateBackend() if c.get("backend") == "immediate" else "threading")
         if c.get("submit_fail_at") is not None:
             backend.submit_fail_at = c["submit_fail_at"]
         p = Parallel(n_jobs=c["n_jobs"], backend=backend, pre_dispatch=c["pre"], return_as=c["return_as"],
